@@ -39,7 +39,9 @@ TRUSTED = [
 ASSUMPTIONS = [
     "superruns, combining and chunk_number requests are outside the model (C14)",
     "fuzzy matching combined with allow_incomplete is not generated (DataDirectory raises NotImplementedError)",
-    "processor wiring of the returned components (D13) belongs to C01",
+    "processor wiring of the returned components (D13) belongs to C01; real runs use the default single-thread processor",
+    "make(_skip_if_built=True) returns before get_iter when every target is stored: mirrored in the op line (no temporary merge plugin)",
+    "the theorems need no hypothesis on the graph; only acyclic (topologically ordered) graphs are generated",
 ]
 
 SW = strax.SaveWhen
@@ -828,7 +830,7 @@ def _run(ctx, rng):
 
     # 2. get_components: exhaustive stored subsets on small graphs
     cases = []
-    n_small = ctx.pick(24, 120)
+    n_small = ctx.pick(18, 120)
     for gi in range(n_small):
         plugins = gen_graph(rng, n_types=rng.randint(2, 5), with_temp=False)
         types = user_types(plugins)
@@ -846,7 +848,7 @@ def _run(ctx, rng):
 
     # 3. get_components: random DAGs x storage states x requests
     cases = []
-    for gi in range(ctx.pick(220, 1500)):
+    for gi in range(ctx.pick(160, 1500)):
         plugins = gen_graph(rng, with_temp=rng.random() < 0.35)
         types = user_types(plugins)
         for si in range(ctx.pick(4, 6)):
@@ -870,7 +872,7 @@ def _run(ctx, rng):
 
     # 4. real runs through the public API
     cases = []
-    for gi in range(ctx.pick(90, 700)):
+    for gi in range(ctx.pick(70, 700)):
         plugins = gen_graph(rng, with_temp=False)
         types = user_types(plugins)
         for si in range(ctx.pick(2, 3)):
